@@ -6,3 +6,4 @@ import BnpVerif.Props.C15
 #print axioms C15.rowOfOffsetRagged_spec
 #print axioms C15.line_number_delimited
 #print axioms C15.line_number_cols
+#print axioms C15.readValidate_line
